@@ -308,6 +308,11 @@ class Runner:
         world = tc.ThreadWorld(ranks, schedule=sched, eager=eager, timeout=15.0)
         rr = tc.run_ranks(world, fn)
         self.mpi_runs += 1
+        if rr.ok and sched is not None:
+            arrivals = [e[1] for e in rr.log if e[0] == "arrive"]
+            k = min(len(arrivals), len(sched))
+            if arrivals[:k] != list(sched[:k]):
+                raise MachineryError(f"thread communicator did not follow the TLC schedule {sched}: {arrivals}")
         return rr
 
     def run_impl(self, name, n, wts, zeta, decoy, s, scale, key=None, keys=None):
